@@ -536,6 +536,84 @@ def c10_case(res, case, tier):
         res["samples"].append({"end": end, "history": case["hist"], "ops": [(o["op"], o["in"]) for o in prog["ops"]], "calls_compared": compared})
 
 
+def c10_container_case(res, case):
+    """Container-valued programs (slices of tuples/lists, overlapping selections, dict outputs) with the
+    caller's cotangent arrays frozen / hashed, closures called repeatedly."""
+    import autograd.builtins as ab
+    import autograd.numpy as anp
+    from autograd.core import make_jvp, make_vjp
+
+    rng = onp.random.Generator(onp.random.PCG64(case["seed"]))
+    tmpl = case["tmpl"]
+    A_ = lambda *s: rng.standard_normal(s)
+    t0 = (A_(2), A_(2), A_(2), A_(3))
+    progs = {
+        "overlapping_slices": (t0, lambda t: ab.tuple((t[0:2], t[1:3]))),
+        "slice_twice": (t0, lambda t: ab.list([t[0:2], t[0:2], t[2]])),
+        "reverse_and_tail": (t0, lambda t: ab.tuple((t[::-1], t[0], t[1:]))),
+        "slice_of_slice": (t0, lambda t: ab.tuple((t[0:3][1:], t[1:][0:2], t[-3:-1]))),
+        "list_slices": ([A_(2), A_(2), A_(2)], lambda t: ab.list([t[0:2], t[1:], t[:]])),
+        "dict_values": ({"a": A_(2), "b": (A_(2), A_(2))}, lambda d: ab.dict({"p": d["b"][0:2], "q": ab.tuple((d["a"], d["b"][1:])), "r": d["b"][::-1]})),
+        "index_and_slice": (t0, lambda t: ab.tuple((t[1], t[0:2], t[1] * 2.0, t[1:2]))),
+        "concat_then_slice": (t0, lambda t: ab.tuple(((t + t)[2:6], t[0:2]))),
+    }
+    x0, f = progs[tmpl]
+    sig = {"engine": "graph", "family": "c10_container", "tmpl": tmpl}
+    with warnings.catch_warnings():
+        warnings.simplefilter("ignore")
+        y0 = make_vjp(f, x0)[1]
+        compared = 0
+        for frozen in (True, False):
+            gs = [common.rand_like(rng, y0) for _ in range(3)]
+            foreign = [a for a in common.leaves([x0, gs]) if isinstance(a, onp.ndarray)]
+            for a in foreign:
+                a.flags.writeable = not frozen
+            hashes = [vhash(a) for a in foreign]
+            mode = "frozen" if frozen else "writable"
+            try:
+                try:
+                    vjp, _ = make_vjp(f, x0)
+                    outs = []
+                    for k in (0, 1, 0, 2, 0):
+                        r = vjp(gs[k])
+                        fresh = make_vjp(f, x0)[0](gs[k])
+                        compared += 1
+                        if not bits_equal(r, fresh):
+                            return _viol(res, sig, "unstable_repeat", case, "call with cotangent #%d differs from a fresh single call (%s)" % (k, mode))
+                        outs.append((r, vhash(r)))
+                        if [vhash(a) for a in foreign] != hashes:
+                            return _viol(res, sig, "foreign_write", case, "input or caller's cotangent modified (%s) by call #%d" % (mode, k))
+                        for (o, h) in outs:
+                            if vhash(o) != h:
+                                return _viol(res, sig, "foreign_write", case, "a previously returned result was modified (%s)" % mode)
+                    v = common.rand_like(rng, x0)
+                    for a in common.leaves(v):
+                        if isinstance(a, onp.ndarray):
+                            a.flags.writeable = not frozen
+                    hv = vhash(v)
+                    jvp = make_jvp(f, x0)
+                    t1, t2 = jvp(v)[1], jvp(v)[1]
+                    if not bits_equal(t1, t2) or vhash(v) != hv or [vhash(a) for a in foreign] != hashes:
+                        return _viol(res, sig, "foreign_write" if vhash(v) != hv else "unstable_repeat", case, "JVP closure (%s)" % mode)
+                except ValueError as e:
+                    if "read-only" in str(e) and frozen:
+                        return _viol(res, sig, "foreign_write", case, "write into frozen foreign memory: %s\n%s" % (e, traceback.format_exc()[-400:]))
+                    raise
+            except NotImplementedError:
+                _cnt(res, "container_fwd_unsupported")
+            except Exception as e:
+                return _viol(res, sig, "exception:" + type(e).__name__, case, traceback.format_exc()[-400:])
+            finally:
+                for a in foreign:
+                    a.flags.writeable = True
+    _cnt(res, "closure_calls_compared", compared)
+    _cnt(res, "container_programs")
+    _ok(res, dict(sig, seed=case["seed"][1] % 7))
+
+
+C10_TEMPLATES = ["overlapping_slices", "slice_twice", "reverse_and_tail", "slice_of_slice", "list_slices", "dict_values", "index_and_slice", "concat_then_slice"]
+
+
 def _basis(y):
     y = onp.asarray(y)
     out = []
@@ -633,7 +711,7 @@ def c11_make_mix(rng, tier, i):
         terms.append({"t": "dense", "f": str(rng.choice(list(DENSE)))})
     order = [int(t) for t in rng.permutation(len(terms))]
     assoc = str(rng.choice(["left", "right", "tree", "python_sum", "nested_fn"]))
-    via = str(rng.choice(["direct", "through_alias", "through_mul"]))
+    via = str(rng.choice(["direct", "through_alias", "through_mul", "sibling", "sibling"]))
     return {"kind": "mix", "x": enc(rng.standard_normal(shape)), "terms": terms, "order": order, "assoc": assoc, "via": via, "wseed": int(rng.integers(0, 2**31)), "k": k, "m": m}
 
 
@@ -670,15 +748,49 @@ def c11_mix_case(res, case, tier):
     sig = {"engine": "graph", "family": "mix", "k": pattern.count("S"), "m": pattern.count("D"), "pattern": "".join(pattern), "assoc": case["assoc"], "via": case["via"], "rank": x.ndim}
     scale = 1.0 if case["via"] != "through_mul" else 1.0
 
+    sib = case["via"] == "sibling"
+    if sib:
+        # the value that receives the sparse/dense uses is v = sin(x); v also enters s = v + u with
+        # u = cos(x), so v's first dense contribution is the very array object u is still waiting on
+        cw = rng.standard_normal(x.shape)
+        dw = rng.standard_normal(x.shape)
+        exp_v = onp.zeros(x.shape)
+        v_np, u_np = onp.sin(x), onp.cos(x)
+        for (kind, a, w) in built:
+            if kind == "sparse":
+                ids = onp.arange(x.size).reshape(x.shape)[a]
+                exp_v = exp_v + onp.bincount(onp.asarray(ids).ravel(), weights=onp.asarray(w).ravel(), minlength=x.size).reshape(x.shape)
+            else:
+                exp_v = exp_v + DENSE[a][1](v_np, w)
+        expected = (exp_v + cw) * onp.cos(x) + (cw + 2 * dw * u_np) * (-onp.sin(x))
+
     def f(xp, t):
         if case["via"] == "through_alias":
             t = xp.reshape(t, t.shape)[...]
+        extra = None
+        late = case.get("wseed", 0) % 2 == 1
+        if sib:
+            v_ = xp.sin(t)
+            u_ = xp.cos(t)
+            if not late:
+                s_ = v_ + u_
+                first = xp.sum(cw * s_)
+            t = v_
         vals = []
         for (kind, a, w) in built:
             if kind == "sparse":
                 vals.append(xp.sum(w * t[a]))
             else:
                 vals.append(xp.sum(DENSE[a][0](xp, t, w)))
+        if sib:
+            # order of creation matters for the arrival order of contributions at v and u
+            if late:
+                # v + u is created last, so its (shared) cotangent reaches v and u first in the backward pass
+                usq = xp.sum(dw * u_ * u_)
+                s_ = v_ + u_
+                vals = [usq] + vals + [xp.sum(cw * s_)]
+            else:
+                vals = [first] + vals + [xp.sum(dw * u_ * u_)]
         if case["assoc"] == "left":
             tot = vals[0]
             for v in vals[1:]:
@@ -737,6 +849,8 @@ def make_case(pid, rng, tier, i):
     if pid == "C03":
         return c03_make(rng, tier, i)
     if pid == "C10":
+        if i % 6 == 5:
+            return {"kind": "c10_container", "tmpl": C10_TEMPLATES[(i // 6) % len(C10_TEMPLATES)], "seed": [int(rng.integers(0, 2**31)), i]}
         return c10_make(rng, tier, i)
     if pid == "C11":
         return c11_make_index(rng, tier, i) if i % 2 == 0 else c11_make_mix(rng, tier, i)
@@ -750,6 +864,8 @@ def run_one(pid, res, case, tier):
         return c03_toposort_replay(res, case)
     if k == "c10":
         return c10_case(res, case, tier)
+    if k == "c10_container":
+        return c10_container_case(res, case)
     if k == "index":
         return c11_index_case(res, case, tier)
     if k == "mix":
